@@ -307,6 +307,19 @@ class Store:
         self.m.pop(r, None)
 
 
+def walk_nodes(n):
+    """all dict nodes below n (generic: every dict / list valued field)"""
+    st = [n]
+    while st:
+        x = st.pop()
+        if isinstance(x, dict):
+            if "k" in x:
+                yield x
+            st.extend(v for v in x.values() if isinstance(v, (dict, list)))
+        elif isinstance(x, list):
+            st.extend(x)
+
+
 class _Return(Exception):
     def __init__(self, v):
         self.v = v
@@ -571,7 +584,7 @@ class SymEx:
     def declare(self, v, env, fn):
         ty = fn.type(v["t"])
         init = v.get("init")
-        if v.get("ref") or is_ref_type(ty):
+        if v.get("ref") or ty.rstrip().endswith("&"):
             x = self.eval(init, env, fn)
             if isinstance(x, list) and len(x) == 1:
                 x = x[0]      # `const T& r{expr};`
@@ -1072,6 +1085,27 @@ class AbsSymEx(SymEx):
             self.loop_stack.pop()
 
     @staticmethod
+    def _loop_vars(n):
+        """loop without an increment clause: the scalar variables that occur in the condition and are modified
+        (++/--/assignment) in the condition or the body are the loop variables"""
+        cond_refs = {}
+        for x in walk_nodes(n.get("c")):
+            if x.get("k") == "Ref" and x.get("dk") in ("local", "param"):
+                cond_refs[x.get("d")] = x
+        out, seen = [], set()
+        for part in (n.get("c"), n.get("body")):
+            for x in walk_nodes(part):
+                t = None
+                if x.get("k") == "Un" and x.get("op") in ("++", "--"):
+                    t = x.get("e")
+                elif x.get("k") == "Assign":
+                    t = x.get("lhs")
+                if t is not None and t.get("k") == "Ref" and t.get("d") in cond_refs and t.get("d") not in seen:
+                    seen.add(t.get("d"))
+                    out.append(cond_refs[t.get("d")])
+        return out
+
+    @staticmethod
     def _inc_targets(inc):
         out = []
         if inc is None:
@@ -1100,7 +1134,7 @@ class AbsSymEx(SymEx):
             except NotClosedForm:
                 constant = False
             if not constant:
-                self._abstract_iteration(n, env, fn, self._inc_targets(n.get("inc")))
+                self._abstract_iteration(n, env, fn, self._inc_targets(n.get("inc")) or self._loop_vars(n))
                 return
             # constant bound: unroll (first condition value already known)
             while c:
@@ -1119,7 +1153,7 @@ class AbsSymEx(SymEx):
             try:
                 c = self.truth(self.eval(n["c"], env, fn))
             except NotClosedForm:
-                self._abstract_iteration(n, env, fn, [])
+                self._abstract_iteration(n, env, fn, self._loop_vars(n))
                 return
             return SymEx.exec(self, n, env, fn)
         return SymEx.exec(self, n, env, fn)
